@@ -56,6 +56,7 @@ class PathEval:
         self.store = {}
         self.self_class = self_class
         self.log = []  # (node id, target text, Poly)
+        self.appended = []  # (node id, container location, appended value) for .append on attribute / subscript containers
         self.effects = []  # (node id, base canon, index canon evaluated in the current state, Poly) for subscript stores
 
     def scope(self) -> Scope:
@@ -126,6 +127,15 @@ class PathEval:
                     cur = self.env[c.func.value.id]
                     add = self.ev(ast.List(elts=[c.args[0]], ctx=ast.Load())) if c.func.attr == "append" else self.ev(c.args[0])
                     self.env[c.func.value.id] = self.nf._binop_polys(cur, add, ast.Add())
+                elif isinstance(c, ast.Call) and isinstance(c.func, ast.Attribute) and c.func.attr in ("append", "extend") and isinstance(c.func.value, (ast.Attribute, ast.Subscript)) and len(c.args) == 1 and not c.keywords:
+                    # the same for containers held in attributes / dict entries: self.xs[key].append(v)
+                    key = self.target_key(c.func.value)
+                    cur = self.store.get(key)
+                    if cur is None:
+                        cur = self.ev(c.func.value)
+                    add = self.ev(ast.List(elts=[c.args[0]], ctx=ast.Load())) if c.func.attr == "append" else self.ev(c.args[0])
+                    self.store[key] = self.nf._binop_polys(cur, add, ast.Add())
+                    self.appended.append((nid, key, self.ev(c.args[0])))
                 # calls for effect: record (rules may inspect the log)
                 self.log.append((nid, "<expr>", logged))
         elif n.kind == "for" and label is True:
